@@ -271,6 +271,21 @@ func hostileSkipCases(c *Ctx, n int, seedBase int64) []json.RawMessage {
 			}
 		}
 	}
+	// deep chains cut short (the closing bytes are missing): what lies behind the cut in the caller's memory must not be
+	// taken for the rest of the value (inputs on a stack that moves, stale end addresses)
+	for _, kind := range []string{"struct", "list", "set", "mapval", "mapkey"} {
+		top := map[string]int{"struct": 12, "list": 15, "set": 14, "mapval": 13, "mapkey": 13}[kind]
+		for _, lv := range []int{30, 45, 55, 60, 63} {
+			for _, inner := range []string{"empty", "string"} {
+				s, _ := nestValue(kind, lv, inner)
+				for _, back := range []int{1, 2, lv / 2, lv, lv + 3} {
+					if k := len(s.b) - back; k > 0 {
+						add(SkipCase{T: top, Hex: hexOf(&SegBuf{b: s.b[:k]}), Note: "nest-cut"})
+					}
+				}
+			}
+		}
+	}
 	// chains that MIX container kinds (k levels of one kind, then another; cycles), on both sides of the depth limit
 	for _, pat := range mixedNestPatterns(c.Thorough()) {
 		_, top := nestMixed(pat)
